@@ -447,31 +447,7 @@ impl Outcome {
     }
 }
 
-thread_local! {
-    static LAST_PANIC: RefCell<String> = const { RefCell::new(String::new()) };
-}
-
-pub fn last_panic() -> String {
-    LAST_PANIC.with(|p| p.borrow().clone())
-}
-
-/// Install a quiet panic hook that remembers the message and location.
-pub fn install_panic_hook() {
-    std::panic::set_hook(Box::new(|info| {
-        let msg = if let Some(s) = info.payload().downcast_ref::<&str>() {
-            (*s).to_string()
-        } else if let Some(s) = info.payload().downcast_ref::<String>() {
-            s.clone()
-        } else {
-            "<non-string panic>".to_string()
-        };
-        let loc = info
-            .location()
-            .map(|l| format!(" at {}:{}", l.file(), l.line()))
-            .unwrap_or_default();
-        LAST_PANIC.with(|p| *p.borrow_mut() = format!("{msg}{loc}"));
-    }));
-}
+pub use vcommon::panichook::{install_panic_hook, last_panic};
 
 pub fn classify(e: &rsass::Error) -> ErrClass {
     match e {
@@ -522,7 +498,7 @@ pub fn run_job(job: &Job) -> Outcome {
     }));
     let res = match res {
         Ok(r) => r,
-        Err(_) => Res::Panic(LAST_PANIC.with(|p| p.borrow().clone())),
+        Err(_) => Res::Panic(last_panic()),
     };
     let s = st.borrow();
     Outcome {
